@@ -218,8 +218,10 @@ Exp(h) ==
                        \cup {<<InsO("CopyB", b)>> : b \in kids \ Manifests}
              rprogs == IF refs THEN {<<CopyM("", a, TRUE, refs)>> : a \in SrcReferrers(h.o)} ELSE {}
          IN IF same /\ ~refs THEN <<>>
-            ELSE (IF kprogs # {} THEN <<[Ins("Spawn") EXCEPT !.p = SetToSeq(kprogs)], Ins("Wait")>> ELSE <<>>)
-                 \o (IF rprogs # {} THEN <<[Ins("Spawn") EXCEPT !.p = SetToSeq(rprogs)], Ins("Wait")>> ELSE <<>>)
+            ELSE \* the referrers are started while the children are still being copied (the first
+                 \* wait loop of imageCopyOpt only polls); everything is joined before the manifest is pushed
+                 (IF kprogs \cup rprogs # {} THEN <<[Ins("Spawn") EXCEPT !.p = SetToSeq(kprogs \cup rprogs)], Ins("Wait")>>
+                  ELSE <<>>)
                  \o (IF ~same THEN ManPutL(IF h.t # "" THEN h.t ELSE "", h.o, h.c) ELSE <<>>)
     [] h.i = "CopyB2" -> IF h.o \in fs.cas THEN <<>> ELSE <<InsO("BlobPut", h.o)>>      \* BlobCopy: BlobHead first
     [] h.i = "ImpB" -> IF h.o \in fs.cas THEN <<>> ELSE <<InsO("BlobPut", h.o)>>        \* imageImportBlob
@@ -265,6 +267,9 @@ SysPrims == {"Mkdir", "TruncMarker", "WriteMarker", "CreatTmp", "WriteTmp", "Ren
              "UnlinkCas"}
 
 SetThr(t, st) == [pr.thr EXCEPT ![t] = st]
+\* a goroutine that has returned leaves nothing behind
+Fin(p) == [p EXCEPT !.loc = [c \in Thr |-> IF p.thr[c] = <<>> THEN 0 ELSE p.loc[c]],
+                    !.par = [c \in Thr |-> IF p.thr[c] = <<>> THEN 0 ELSE p.par[c]]]
 \* os.CreateTemp picks an unused random name; the model names a temp file by the smallest unused number
 NewTmp == CHOOSE f \in 1..(Cardinality(DOMAIN fs.tmps) + 1) : f \notin DOMAIN fs.tmps /\ \A g \in 1..(f - 1) : g \in DOMAIN fs.tmps
 
@@ -277,82 +282,82 @@ Do(t) ==
          rest == IF st = <<>> THEN <<>> ELSE Tail(st)
      IN
      \/ /\ h.i = "Nop"         \* everything left expanded to nothing (e.g. a copy that is skipped)
-        /\ pr' = [pr EXCEPT !.thr = SetThr(t, <<>>)] /\ UNCHANGED <<fs, ctl>>
+        /\ pr' = Fin([pr EXCEPT !.thr = SetThr(t, <<>>)]) /\ UNCHANGED <<fs, ctl>>
      \/ /\ h.i = "Lock" /\ pr.mu = 0
-        /\ pr' = [pr EXCEPT !.mu = t, !.thr = SetThr(t, rest)] /\ UNCHANGED <<fs, ctl>>
+        /\ pr' = Fin([pr EXCEPT !.mu = t, !.thr = SetThr(t, rest)]) /\ UNCHANGED <<fs, ctl>>
      \/ /\ h.i = "Unlock"
-        /\ pr' = [pr EXCEPT !.mu = 0, !.thr = SetThr(t, rest)] /\ UNCHANGED <<fs, ctl>>
+        /\ pr' = Fin([pr EXCEPT !.mu = 0, !.thr = SetThr(t, rest)]) /\ UNCHANGED <<fs, ctl>>
      \/ /\ h.i = "ClearMod"
-        /\ pr' = [pr EXCEPT !.mod = FALSE, !.thr = SetThr(t, rest)] /\ UNCHANGED <<fs, ctl>>
+        /\ pr' = Fin([pr EXCEPT !.mod = FALSE, !.thr = SetThr(t, rest)]) /\ UNCHANGED <<fs, ctl>>
      \/ /\ h.i = "GcLock"
-        /\ pr' = [pr EXCEPT !.gcl = @ + 1, !.thr = SetThr(t, rest)] /\ UNCHANGED <<fs, ctl>>
+        /\ pr' = Fin([pr EXCEPT !.gcl = @ + 1, !.thr = SetThr(t, rest)]) /\ UNCHANGED <<fs, ctl>>
      \/ /\ h.i = "GcUnlock"
-        /\ pr' = [pr EXCEPT !.gcl = @ - 1, !.thr = SetThr(t, rest)] /\ UNCHANGED <<fs, ctl>>
+        /\ pr' = Fin([pr EXCEPT !.gcl = @ - 1, !.thr = SetThr(t, rest)]) /\ UNCHANGED <<fs, ctl>>
      \/ /\ h.i = "Spawn"       \* go func() per child; children land in free thread slots
         /\ Cardinality(FreeSlots) >= Len(h.p)
         /\ LET slots == SetToSeq(FreeSlots)
                slotOf(j) == slots[j]
-           IN pr' = [pr EXCEPT !.thr = [c \in Thr |-> IF c = t THEN rest
+           IN pr' = Fin([pr EXCEPT !.thr = [c \in Thr |-> IF c = t THEN rest
                                                    ELSE IF \E j \in 1..Len(h.p) : slotOf(j) = c
                                                         THEN h.p[CHOOSE j \in 1..Len(h.p) : slotOf(j) = c]
                                                         ELSE pr.thr[c]],
-                               !.par = [c \in Thr |-> IF \E j \in 1..Len(h.p) : slotOf(j) = c THEN t ELSE pr.par[c]]]
+                               !.par = [c \in Thr |-> IF \E j \in 1..Len(h.p) : slotOf(j) = c THEN t ELSE pr.par[c]]])
         /\ UNCHANGED <<fs, ctl>>
      \/ /\ h.i = "Wait" /\ KidsOf(t) = {}
-        /\ pr' = [pr EXCEPT !.thr = SetThr(t, rest)] /\ UNCHANGED <<fs, ctl>>
+        /\ pr' = Fin([pr EXCEPT !.thr = SetThr(t, rest)]) /\ UNCHANGED <<fs, ctl>>
      \/ /\ h.i = "CopyB"       \* imageSeenOrWait: first copier proceeds, later ones wait for it
         /\ IF h.o \in pr.seen
-           THEN pr' = [pr EXCEPT !.thr = SetThr(t, <<InsO("WaitSeen", h.o)>> \o rest)]
-           ELSE pr' = [pr EXCEPT !.seen = @ \cup {h.o}, !.thr = SetThr(t, <<InsO("CopyB2", h.o)>> \o rest)]
+           THEN pr' = Fin([pr EXCEPT !.thr = SetThr(t, <<InsO("WaitSeen", h.o)>> \o rest)])
+           ELSE pr' = Fin([pr EXCEPT !.seen = @ \cup {h.o}, !.thr = SetThr(t, <<InsO("CopyB2", h.o)>> \o rest)])
         /\ UNCHANGED <<fs, ctl>>
      \/ /\ h.i = "WaitSeen" /\ h.o \in fs.cas
-        /\ pr' = [pr EXCEPT !.thr = SetThr(t, rest)] /\ UNCHANGED <<fs, ctl>>
+        /\ pr' = Fin([pr EXCEPT !.thr = SetThr(t, rest)]) /\ UNCHANGED <<fs, ctl>>
      \/ /\ h.i = "Any"         \* the members of h.s in any order (directory / archive / caller order)
-        /\ IF h.s = {} THEN pr' = [pr EXCEPT !.thr = SetThr(t, rest)]
+        /\ IF h.s = {} THEN pr' = Fin([pr EXCEPT !.thr = SetThr(t, rest)])
            ELSE \E x \in h.s :
                   LET one == CASE h.t = "ImpMc" -> [Ins("ImpM") EXCEPT !.o = x, !.c = TRUE]
                                [] OTHER -> InsO(h.t, x)
-                  IN pr' = [pr EXCEPT !.thr = SetThr(t, <<one, [h EXCEPT !.s = @ \ {x}]>> \o rest)]
+                  IN pr' = Fin([pr EXCEPT !.thr = SetThr(t, <<one, [h EXCEPT !.s = @ \ {x}]>> \o rest)])
         /\ UNCHANGED <<fs, ctl>>
      \/ /\ h.i = "Fail"        \* the operation returns an error: nothing more is written
-        /\ pr' = [pr EXCEPT !.thr = [c \in Thr |-> <<>>], !.mu = 0]
+        /\ pr' = Fin([pr EXCEPT !.thr = [c \in Thr |-> <<>>], !.mu = 0])
         /\ ctl' = [ctl EXCEPT !.phase = "done", !.res = "err"] /\ UNCHANGED fs
      \/ /\ h.i = "Sweep"       \* close.go: os.Remove of every unmarked file below blobs/<alg>/
-        /\ IF h.s = {} /\ h.u = {} THEN pr' = [pr EXCEPT !.thr = SetThr(t, rest)] /\ UNCHANGED fs
+        /\ IF h.s = {} /\ h.u = {} THEN pr' = Fin([pr EXCEPT !.thr = SetThr(t, rest)]) /\ UNCHANGED fs
            ELSE \/ \E o \in h.s : /\ fs' = [fs EXCEPT !.cas = @ \ {o}]
-                                  /\ pr' = [pr EXCEPT !.thr = SetThr(t, <<[h EXCEPT !.s = @ \ {o}]>> \o rest)]
+                                  /\ pr' = Fin([pr EXCEPT !.thr = SetThr(t, <<[h EXCEPT !.s = @ \ {o}]>> \o rest)])
                 \/ \E f \in h.u : /\ fs' = [fs EXCEPT !.tmps = RestrictTo(@, DOMAIN @ \ {f})]
-                                  /\ pr' = [pr EXCEPT !.thr = SetThr(t, <<[h EXCEPT !.u = @ \ {f}]>> \o rest)]
+                                  /\ pr' = Fin([pr EXCEPT !.thr = SetThr(t, <<[h EXCEPT !.u = @ \ {f}]>> \o rest)])
         /\ UNCHANGED ctl
      \* ---- system calls ----
      \/ /\ h.i = "Mkdir"
         /\ fs' = [fs EXCEPT !.dirs = @ \cup {h.o}]
-        /\ pr' = [pr EXCEPT !.thr = SetThr(t, rest)] /\ UNCHANGED ctl
+        /\ pr' = Fin([pr EXCEPT !.thr = SetThr(t, rest)]) /\ UNCHANGED ctl
      \/ /\ h.i = "TruncMarker"          \* os.Create: O_CREAT|O_TRUNC
         /\ fs' = [fs EXCEPT !.marker = "empty"]
-        /\ pr' = [pr EXCEPT !.thr = SetThr(t, rest)] /\ UNCHANGED ctl
+        /\ pr' = Fin([pr EXCEPT !.thr = SetThr(t, rest)]) /\ UNCHANGED ctl
      \/ /\ h.i = "WriteMarker"
         /\ fs' = [fs EXCEPT !.marker = "complete"]
-        /\ pr' = [pr EXCEPT !.thr = SetThr(t, rest)] /\ UNCHANGED ctl
+        /\ pr' = Fin([pr EXCEPT !.thr = SetThr(t, rest)]) /\ UNCHANGED ctl
      \/ /\ h.i = "CreatTmp"             \* os.CreateTemp: O_CREAT|O_EXCL, fresh name
         /\ fs' = [fs EXCEPT !.tmps = [f \in DOMAIN @ \cup {NewTmp} |->
                      IF f = NewTmp THEN [cls |-> h.t, o |-> h.o, v |-> h.v, w |-> 0] ELSE @[f]]]
-        /\ pr' = [pr EXCEPT !.loc = [@ EXCEPT ![t] = NewTmp], !.thr = SetThr(t, rest)] /\ UNCHANGED ctl
+        /\ pr' = Fin([pr EXCEPT !.loc = [@ EXCEPT ![t] = NewTmp], !.thr = SetThr(t, rest)]) /\ UNCHANGED ctl
      \/ /\ h.i = "WriteTmp"
         /\ fs' = [fs EXCEPT !.tmps = [@ EXCEPT ![pr.loc[t]].w = @ + 1]]
-        /\ pr' = [pr EXCEPT !.thr = SetThr(t, rest)] /\ UNCHANGED ctl
+        /\ pr' = Fin([pr EXCEPT !.thr = SetThr(t, rest)]) /\ UNCHANGED ctl
      \/ /\ h.i = "RenameCas"            \* the temp file is complete here (all chunks written, digest verified)
         /\ fs' = [fs EXCEPT !.cas = @ \cup {h.o}, !.tmps = RestrictTo(@, DOMAIN @ \ {pr.loc[t]})]
-        /\ pr' = [pr EXCEPT !.mod = TRUE, !.thr = SetThr(t, rest)] /\ UNCHANGED ctl
+        /\ pr' = Fin([pr EXCEPT !.mod = TRUE, !.thr = SetThr(t, rest)]) /\ UNCHANGED ctl
      \/ /\ h.i = "RenameIndex"
         /\ fs' = [fs EXCEPT !.index = fs.tmps[pr.loc[t]].v, !.tmps = RestrictTo(@, DOMAIN @ \ {pr.loc[t]})]
-        /\ pr' = [pr EXCEPT !.mod = TRUE, !.thr = SetThr(t, rest)] /\ UNCHANGED ctl
+        /\ pr' = Fin([pr EXCEPT !.mod = TRUE, !.thr = SetThr(t, rest)]) /\ UNCHANGED ctl
      \/ /\ h.i = "RenameMarker"
         /\ fs' = [fs EXCEPT !.marker = "complete", !.tmps = RestrictTo(@, DOMAIN @ \ {pr.loc[t]})]
-        /\ pr' = [pr EXCEPT !.thr = SetThr(t, rest)] /\ UNCHANGED ctl
+        /\ pr' = Fin([pr EXCEPT !.thr = SetThr(t, rest)]) /\ UNCHANGED ctl
      \/ /\ h.i = "UnlinkCas"
         /\ fs' = [fs EXCEPT !.cas = @ \ {h.o}]
-        /\ pr' = [pr EXCEPT !.mod = TRUE, !.thr = SetThr(t, rest)] /\ UNCHANGED ctl
+        /\ pr' = Fin([pr EXCEPT !.mod = TRUE, !.thr = SetThr(t, rest)]) /\ UNCHANGED ctl
 
 (* ------------------------------ start states --------------------------- *)
 AllDirs == {"root", "blobs", "alg"}
